@@ -202,7 +202,8 @@ def run(ctx):
     dist["known_finding_observations"] = f21_seen
 
     ctx.oblige("K-srv: real server/channel/poll agree with the extracted model after every event of every history",
-               srv_ok, "" if srv_ok else "first disagreement at step %d" % first_mismatch["step"])
+               srv_ok, "" if srv_ok else ("first disagreement at step %d" % first_mismatch["step"] if first_mismatch
+                                          else "the extracted model is not available"))
 
     # monitors: genuine violations and the known finding
     bad = [m for m in monitor_hits if m[4] is None]
@@ -241,7 +242,7 @@ def run(ctx):
         elif not preds_ok:
             ctx.report("k-preds-mismatch", "generated predicate differs from the real method",
                        {"failing_input_found": False, "broken": "K-preds", "case": pred_mismatch})
-        elif not props_ok:
+        elif not props_ok or not runner_ok:
             ctx.report("c18-proof-broken", "Props/C18.v no longer checks (%s)" % failing,
                        {"failing_input_found": False, "broken": "Props/C18.v via %s" % failing,
                         "log_tail": (log or "")[-1500:]})
